@@ -83,6 +83,12 @@ def stream_sql_and_e2e(ck, model_ok, tm=None):
     allrows = list(range(len(rows)))
     for key, t in G.all_triples():
         cases.append(("triple:%s/%s/%s" % key, t, allrows))
+    seenf = set()
+    for t in G.fold_cases():
+        s = G.prql(t)
+        if s not in seenf:
+            seenf.add(s)
+            cases.append(("fold", t, allrows[::4]))
     sample = sorted(ck.rng.sample(allrows, 250))
     nrand = ck.n(350, 5000)
     seen = set()
